@@ -144,6 +144,100 @@ CHAR_ESCAPES: list[tuple[str, int]] = [
 ]
 
 
+# escape SEQUENCES: (body between the quotes, decoded text).  The decoded text of the first group contains a backslash
+# followed by something that looks like an escape again: decoding twice (or not at all) denotes other code points.
+ESCAPE_SEQS: list[tuple[str, str]] = [
+    (r"\\n", "\\n"), (r"\\t", "\\t"), (r"\\x41", "\\x41"), (r"\\u{41}", "\\u{41}"), (r"\\\\", "\\\\"), (r"\x5cn", "\\n"), (r"\u{5c}x41", "\\x41"),
+    (r"\x5c\x5c", "\\\\"), (r"\\d", "\\d"), (r"\\", "\\"), (r"\\0", "\\0"), (r"\\\"", '\\"'), (r"\\'", "\\'"),
+    (r"a\nb", "a\nb"), (r"\x41\x42", "AB"), (r"\u{41}\u{1F600}z", "A\U0001f600z"), (r"\"\'", "\"'"), (r"\0\x00", "\x00\x00"), (r"\t\r\n", "\t\r\n"),
+    (r"\x61\x5A", "aZ"), (r"\u{6b}\u{e9}", "ké"), (r"x\u{10FFFF}", "x\U0010ffff"), (r"\x7e\x7F", "~\x7f"),
+]
+ESCAPE_SEQ_CONTEXTS = {
+    "string": 'SOI ~ "{}" ~ EOI',
+    "ci": 'SOI ~ ^"{}" ~ EOI',
+    "ci_choice": 'SOI ~ (^"{}" | "\\u{{01}}") ~ EOI',
+    "push_literal": 'SOI ~ PUSH_LITERAL("{}") ~ POP ~ EOI',
+    "choice": 'SOI ~ ("{}" | "\\u{{01}}" | "\\u{{02}}") ~ EOI',
+}
+
+# case-insensitive literals that mix letters with digits / punctuation, alone and inside choices the optimizer squashes.
+# No alternative is a prefix of another one, so "SOI ~ (choice) ~ EOI accepts x" == "some alternative denotes x".
+CI_CHOICES: list[list[tuple[str, str]]] = [
+    [("ci", "0x"), ("ci", "0b"), ("ci", "0o")],
+    [("ci", "utf8"), ("ci", "x-y"), ("str", "q")],
+    [("ci", "e+"), ("ci", "e-"), ("str", "E0")],
+    [("ci", "a1"), ("str", "b2"), ("ci", "_c")],
+    [("ci", "1a"), ("ci", "2B"), ("ci", "3 c")],
+    [("ci", "ab"), ("ci", "c-"), ("ci", "-d"), ("ci", "9")],
+    [("ci", "a.b"), ("ci", "[c]"), ("ci", "d|e")],
+    [("ci", "k9"), ("str", "K8"), ("ci", "S\u00e9")],
+    [("ci", "0x")],
+    [("ci", "a-z"), ("ci", "0")],
+]
+
+
+def _ascii_fold(x: str) -> str:
+    return "".join(chr(ord(c) + 32) if "A" <= c <= "Z" else c for c in x)
+
+
+def ci_choice_accepts(alts, text: str) -> bool:
+    return any((_ascii_fold(v) == _ascii_fold(text)) if k == "ci" else v == text for k, v in alts)
+
+
+def ci_choice_inputs(alts) -> list[str]:
+    out: set[str] = {""}
+    for _k, v in alts:
+        letters = [i for i, c in enumerate(v) if c.isalpha()]
+        for mask in range(1 << len(letters)):
+            t = list(v)
+            for b, i in enumerate(letters):
+                if mask >> b & 1:
+                    t[i] = t[i].swapcase()
+            w = "".join(t)
+            out.add(w)
+            out.add(w[:-1])
+            out.add(w + w[-1])
+            for i in range(len(w)):
+                for c in ("0", "a", "A", "-", "\u212a", "\u017f", chr(ord(w[i]) ^ 0x20) if ord(w[i]) < 128 else "x"):
+                    out.add(w[:i] + c + w[i + 1 :])
+    return sorted(out)
+
+
+def pest_unescape(x: str) -> str | None:
+    """pest's string escapes, decoded once (None if x is not a well-formed string body)."""
+    out = []
+    i = 0
+    simple = {"n": "\n", "r": "\r", "t": "\t", "\\": "\\", "0": "\0", '"': '"', "'": "'"}
+    while i < len(x):
+        c = x[i]
+        if c != "\\":
+            out.append(c)
+            i += 1
+            continue
+        e = x[i + 1 : i + 2]
+        if e in simple and e:
+            out.append(simple[e])
+            i += 2
+        elif e == "x" and len(x) >= i + 4 and all(h in "0123456789abcdefABCDEF" for h in x[i + 2 : i + 4]):
+            out.append(chr(int(x[i + 2 : i + 4], 16)))
+            i += 4
+        elif e == "u" and x[i + 2 : i + 3] == "{" and "}" in x[i + 3 :]:
+            j = x.index("}", i + 3)
+            h = x[i + 3 : j]
+            if not (2 <= len(h) <= 6 and all(k in "0123456789abcdefABCDEF" for k in h)) or int(h, 16) > 0x10FFFF:
+                return None
+            out.append(chr(int(h, 16)))
+            i = j + 1
+        else:
+            return None
+    return "".join(out)
+
+
+def lit_text(k: str, v: str) -> str:
+    body = "".join(c if c.isascii() and c.isprintable() and c not in '"\\' else "\\u{%x}" % ord(c) for c in v)
+    return ("^" if k == "ci" else "") + '"' + body + '"'
+
+
 def probe_points(cp: int) -> list[int]:
     pts = set(range(0, 0x300)) | {cp - 1, cp, cp + 1, 0xFFFF, 0x10000, 0x10FFFF, 0xD800, 0xDFFF, 0x2028, 0x1F600, 0x1F601}
     if chr(cp).isalpha():
@@ -267,6 +361,59 @@ def worker(shard: dict) -> dict:  # noqa: PLR0912
                         acc.violation("c12-escape", {"spec": text, "grammar": md.text, "mode": mode, "code_point": p, "expected_code_point": cp, "observed": got})
                         break
             acc.count("escape_forms")
+        elif kind == "escape_seq":
+            body, want_text, ctx = task["body"], task["decoded"], task["ctx"]
+            md = modes_for(f"es:{ctx}:{body}", ESCAPE_SEQ_CONTEXTS[ctx].format(body))
+            fold = ctx in ("ci", "ci_choice")
+            # the decoded text must be accepted; every other reading of the body must not be
+            others = {body, want_text[:-1], want_text + want_text[-1:], want_text.replace("\\", "", 1), want_text.replace("\\", "\\\\", 1)}
+            twice = pest_unescape(want_text)
+            if twice is not None:
+                others.add(twice)
+            for x in list(others):
+                others.add(x.swapcase())
+            probes = {want_text: True}
+            if fold:
+                probes[want_text.swapcase()] = _ascii_fold(want_text.swapcase()) == _ascii_fold(want_text)
+                probes[want_text.upper()] = _ascii_fold(want_text.upper()) == _ascii_fold(want_text)
+            for x in others:
+                if x not in probes:
+                    probes[x] = (_ascii_fold(x) == _ascii_fold(want_text)) if fold else x == want_text
+            for mode in ("I", "O", "GI", "GO"):
+                obj = md.get(mode)
+                if obj is None:
+                    acc.violation("c12-escape-load", {"spec": body, "grammar": md.text, "mode": mode, "what": "a literal made of pest-defined escapes is rejected", "observed": list(md.errors[mode])})
+                    break
+                for x, want in probes.items():
+                    got = accepts(obj, x)
+                    acc.count("code_points_tested")
+                    acc.count("escape_sequence_probes")
+                    if got != want:
+                        acc.violation("c12-escape-seq", {"spec": body, "context": ctx, "grammar": md.text, "mode": mode, "input": x, "expected_member": want, "observed": got, "decoded": want_text})
+                        break
+            acc.count("escape_sequence_forms")
+        elif kind == "cichoice":
+            alts = [tuple(a) for a in task["alts"]]
+            md = modes_for("cc:" + repr(alts), "SOI ~ (" + " | ".join(lit_text(k, v) for k, v in alts) + ") ~ EOI")
+            inputs = ci_choice_inputs(alts)
+            for mode in ("I", "O", "GI", "GO"):
+                obj = md.get(mode)
+                if obj is None:
+                    acc.violation("c12-load", {"spec": repr(alts), "grammar": md.text, "mode": mode, "what": "does not load", "observed": list(md.errors[mode])})
+                    continue
+                nbad = 0
+                for x in inputs:
+                    got = accepts(obj, x)
+                    acc.count("code_points_tested")
+                    acc.count("ci_choice_probes")
+                    want = ci_choice_accepts(alts, x)
+                    if want:
+                        acc.count("ci_choice_probes_accepted")
+                    if got != want:
+                        nbad += 1
+                        if nbad <= 2:
+                            acc.violation("c12-ci-choice", {"spec": repr(alts), "grammar": md.text, "mode": mode, "input": x, "expected_member": want, "observed": got})
+            acc.count("ci_choice_families")
         elif kind == "ci2":
             # two-letter case-insensitive literal on all ASCII pairs
             md = modes_for("ci2", '^"aZ"')
@@ -333,6 +480,11 @@ def main(tier: str, seed: int) -> int:
         tasks.append({"kind": "escape", "text": text, "cp": cp, "ctx": "string"})
     for text, cp in CHAR_ESCAPES:
         tasks.append({"kind": "escape", "text": text, "cp": cp, "ctx": "char"})
+    for body, decoded in ESCAPE_SEQS:
+        for ctx in ESCAPE_SEQ_CONTEXTS:
+            tasks.append({"kind": "escape_seq", "body": body, "decoded": decoded, "ctx": ctx})
+    for alts in CI_CHOICES:
+        tasks.append({"kind": "cichoice", "alts": alts})
     tasks.append({"kind": "ci2"})
     tasks.append({"kind": "newline2"})
     rnd.shuffle(tasks)
@@ -347,7 +499,10 @@ def main(tier: str, seed: int) -> int:
             f"a family of {len(others)} ranges / literals / optimizer-merged choices (case boundaries, regex metacharacters, plane boundaries, "
             "case-fold traps) - all of them fully swept in the thorough tier, a seeded 6 fully + the rest on U+0000-2FFF and a 1/17 stride in quick; "
             "Unicode property rules by cross-mode agreement (all in thorough, seeded 24 with stride 7 in quick); every escape form by probing "
-            "768 + boundary code points around the decoded value, in strings and in range bounds. distinct_nontrivial = number of distinct "
+            "768 + boundary code points around the decoded value, in strings and in range bounds; escape SEQUENCES (incl. bodies whose decoded text "
+            "contains a backslash followed by escape-looking text) in plain, CI, CI-in-choice, PUSH_LITERAL and squashed-choice contexts, judged on the "
+            "decoded text and on every other reading of the body; CI literals mixing letters with digits / punctuation inside squashable choices on "
+            "all case variants and single-character mutants. distinct_nontrivial = number of distinct "
             "(rule, mode) sweeps + unicode rules + escape forms completed (measured)."
         ),
         assumptions=[
@@ -355,7 +510,7 @@ def main(tier: str, seed: int) -> int:
             "Unicode property rules: cross-mode agreement only",
         ],
         evaluations_key="code_points_tested",
-        floors={"code_points_tested": 1_000_000, "rule_mode_sweeps": 40, "unicode_rule_tasks": 20, "escape_forms": 40},
+        floors={"code_points_tested": 1_000_000, "rule_mode_sweeps": 40, "unicode_rule_tasks": 20, "escape_forms": 40, "escape_sequence_forms": 100, "ci_choice_families": 10, "ci_choice_probes_accepted": 200},
         exhaustive=not run.quick,
     )
 
@@ -395,3 +550,7 @@ def selftest() -> None:
     assert t["ASCII_HEX_DIGIT"][2](ord("F")) and not t["ASCII_HEX_DIGIT"][2](ord("g"))
     assert t["choice:overlap"][2](ord("k")) and not t["choice:overlap"][2](ord("l"))
     assert len({s[0] for s in specs()}) == len(specs())
+    for body, decoded in ESCAPE_SEQS:
+        assert pest_unescape(body) == decoded, (body, decoded, pest_unescape(body))
+    assert pest_unescape("\\") is None and pest_unescape("\\q") is None and pest_unescape("\\u{110000}") is None
+    assert ci_choice_accepts([("ci", "0x")], "0X") and not ci_choice_accepts([("str", "K8")], "k8") and not ci_choice_accepts([("ci", "k9")], "\u212a9")
